@@ -261,12 +261,15 @@ def run_hist(case, world=None, custom_fc=None, observe=None):
     # validate() stays referenced (with its traceback) until the history is over
     import zlib
     kept = [] if zlib.crc32(repr(case.get("ops")).encode("utf-8", "replace")) % 2 else None
+    before = repr((schema, ops))
     for op in ops:
         r = do_op(v, op, kept)
         st = state_json(res, world)
         out.append({"r": r, "st": st})
         if observe is not None:
             observe(v, op, r, st)
+    if repr((schema, ops)) != before and len(MODIFIED) < 20:
+        MODIFIED.append({"case": {k: case.get(k) for k in ("cls", "schema", "ops")}, "after": repr((schema, ops))[:600]})
     return out
 
 
